@@ -120,6 +120,40 @@ theorem offsetsOk_of_offsFit : ∀ (l : List InFile) (stl off : Nat), offsFit of
     have := offsetsOk_of_offsFit fs _ _ h.2
     simpa [Spec.blockLen, memberOf, Content.toBytes_length, Nat.add_assoc] using this
 
+/-- all the conditions under which `CreateArchive` must succeed, in ℕ -/
+structure Fits (out : Bytes) (files : List InFile) : Prop where
+  nodup : NoDupCI nameOf files
+  small : ∀ f ∈ files, f.content.len < 2147483648
+  header : Spec.headerLen (descOf (sortCI nameOf files)) < 2147483648
+  offsets : ∀ k, k < files.length → blockOffset (sortCI nameOf files) k ≤ 4294967295
+  notSelf : ∀ f ∈ files, Path.pathsAreEqual out f.path = false
+  outNonempty : out ≠ []
+
+theorem Fits.good {out : Bytes} {files : List InFile} (h : Fits out files) : Good out (sortCI nameOf files) where
+  nodup := by
+    cases hd : hasAdjacentDup ((sortCI nameOf files).map nameOf)
+    · rfl
+    · exact absurd h.nodup ((adjDup_iff files).mp hd)
+  small := by
+    intro f hf
+    have := h.small f ((sortCI_perm nameOf files).mem_iff.mp hf)
+    simp only [int32Max]; omega
+  header := h.header
+  fit := by
+    rw [offsFit_iff]
+    intro k hk
+    have hl : (sortCI nameOf files).length = files.length := (sortCI_perm nameOf files).length_eq
+    have := h.offsets k (by omega)
+    simp only [blockOffset, uint32Max] at *; omega
+  notSelf := by
+    rw [List.any_eq_false]
+    intro f hf
+    rw [h.notSelf f ((sortCI_perm nameOf files).mem_iff.mp hf)]; simp
+  outNonempty := by
+    cases hout : out with
+    | nil => exact absurd hout h.outNonempty
+    | cons _ _ => rfl
+
 /-! ## what is written is a strict description -/
 
 def NameOk (n : Bytes) : Prop := ∀ x ∈ n, x ≠ 0 ∧ x ≠ 255
@@ -160,5 +194,21 @@ theorem descOf_strict (out : Bytes) (l : List InFile) (g : Good out l) (hs : Sor
   have hf := offsetsOk_of_offsFit _ _ _ g.fit
   simp only [descOf] at hh hf
   exact ⟨⟨decide_eq_true hh, hf⟩, Or.inl (by apply decide_eq_true; omega)⟩
+
+theorem Strict.wf {d : Spec.Desc} (h : d.Strict) : d.WF := by
+  unfold Spec.Desc.Strict Spec.Desc.strict at h
+  simp only [Bool.and_eq_true] at h
+  exact h.1.1.1.1
+
+theorem extract_of_kind_stream (v : View) (i : Nat) (b : Bytes) (hk : v.kind i = .ok uncompressed) (hs : v.stream i = .ok b) :
+    v.extract i = .ok (some b) := by
+  unfold View.extract
+  unfold View.kind at hk
+  cases he : v.entry i with
+  | error e => rw [he] at hk; simp [Except.map] at hk
+  | ok e =>
+    rw [he] at hk
+    simp only [Except.map, Except.ok.injEq] at hk
+    simp only [hk, if_true, hs, Except.map]
 
 end Op2.Vol
